@@ -28,7 +28,12 @@
    * NumPy functions are bound to the signatures of [np_sigs] (names and defaults of NumPy 1.x, only the parameters
      that are interpreted), so that np.allclose(a, b, 1e-3) and np.allclose(a, b, rtol=1e-3) mean the same.
    * scipy.interpolate.interp1d(x, y, ...)(x_new) is the primitive [interp1d_prim]; only the argument combinations
-     written there are interpreted (kind='nearest' with a fill value on a non-decreasing x). *)
+     written there are interpreted: kind='nearest' with a fill value on a non-decreasing x (multipitch), and kind
+     'linear' / 'zero' with the default bounds_error / fill_value / assume_sorted (melody: stable sort of the points,
+     ValueError outside the range, 'zero' refuses duplicate abscissae, 'linear' on duplicate abscissae divides by zero:
+     the result is [VOpaque], an array whose entries are not modelled and on which every operation is [UNM]).
+   * [VNan] is the scalar nan (only produced as the mean of an empty array; np.allclose(a, nan) is True iff a is empty).
+     A scalar division by zero is [UNM] (NumPy would give inf / nan): ties are stated where it does not occur. *)
 From Coq Require Import String.
 From Coq Require Import List Bool Arith ZArith QArith Qabs Qminmax Qround.
 From ME Require Import Model.Prelude Model.Events.
@@ -57,6 +62,8 @@ Inductive fv :=
 | VDict (d : list (string * fv))     (* a **kwargs dictionary *)
 | VFun (f : string)                  (* a function of mir_eval used as a value *)
 | VMatching (m : list (nat * nat))   (* the list util.match_events returns *)
+| VNan                              (* the float nan as a scalar (the mean of an empty array) *)
+| VOpaque                           (* a float array with entries that are not modelled (inf / nan produced by a division by zero) *)
 | VUnbound.
 
 Section MapM.
@@ -104,6 +111,66 @@ Definition nearest_sample (x y : list Q) (fill : Q) (t : Q) : Q :=
   | [] => fill
   | x0 :: _ => if qltb t x0 || qltb (last x x0) t then fill
                else nth (Nat.min (searchsorted_left (midpoints x) t) (length x - 1)) y fill
+  end.
+
+Fixpoint diffs (l : list Q) : list Q :=
+  match l with x :: t => match t with y :: _ => (y - x) :: diffs t | [] => [] end | [] => [] end.
+Definition qlen {A} (l : list A) : Q := inject_Z (Z.of_nat (length l)).
+(* np.round(x, 10): round half to even at the 10th decimal *)
+Definition round_half_even (y : Q) : Z :=
+  let f := Qfloor y in let r := y - inject_Z f in
+  if qltb r (1#2) then f else if qltb (1#2) r then (f + 1)%Z else if Z.even f then f else (f + 1)%Z.
+Definition round10 (x : Q) : Q := inject_Z (round_half_even (x * 10000000000)) / 10000000000.
+(* scipy.interpolate.interp1d(x, y, kind)(x_new), kind in {'linear', 'zero'}, default bounds_error / fill_value /
+   assume_sorted: the points are sorted by abscissa (stable); x_new outside [min x, max x] raises ValueError;
+   'zero' refuses duplicate abscissae (ValueError); 'linear' on duplicate abscissae divides by zero (the affected
+   entries are inf / nan: [VOpaque], see interp1d_prim) *)
+Fixpoint ins_pt (p : Q * Q) (l : list (Q * Q)) : list (Q * Q) :=
+  match l with [] => [p] | q :: t => if qltb (fst p) (fst q) then p :: l else q :: ins_pt p t end.
+Definition sort_pts (l : list (Q * Q)) : list (Q * Q) := fold_left (fun acc p => ins_pt p acc) l [].
+Fixpoint has_dup (l : list (Q * Q)) : bool :=
+  match l with p :: t => match t with q :: _ => qeqb (fst p) (fst q) || has_dup t | [] => false end | [] => false end.
+Fixpoint interp_lin (pts : list (Q * Q)) (x : Q) : Q :=
+  match pts with
+  | [] => 0
+  | (x0, y0) :: t => match t with
+                     | [] => y0
+                     | (x1, y1) :: _ => if qltb x x1 then y0 + (y1 - y0) / (x1 - x0) * (x - x0) else interp_lin t x
+                     end
+  end.
+Fixpoint interp_zero (pts : list (Q * Q)) (x : Q) : Q :=
+  match pts with
+  | [] => 0
+  | (x0, y0) :: t => match t with [] => y0 | (x1, _) :: _ => if qltb x x1 then y0 else interp_zero t x end
+  end.
+
+(* np.flatnonzero on a float array: the positions of the entries that are not 0, from position i on *)
+Fixpoint nz_from (i : Z) (l : list Q) : list Z :=
+  match l with [] => [] | x :: t => if qeqb x 0 then nz_from (i + 1)%Z t else i :: nz_from (i + 1)%Z t end.
+Fixpoint all_some (l : list (option Q)) : option (list Q) :=
+  match l with [] => Some [] | Some x :: t => option_map (cons x) (all_some t) | None :: _ => None end.
+(* np.linspace(a, b, num) (endpoint included): num samples a + i * ((b - a) / (num - 1)); one sample: [a] *)
+Definition linspace (a b : Q) (num : nat) : list Q :=
+  match num with
+  | O => []
+  | S O => [a]
+  | _ => map (fun i => a + inject_Z (Z.of_nat i) * ((b - a) / inject_Z (Z.of_nat (num - 1)))) (seq 0 num)
+  end.
+
+(* a[idx] for an integer index array (a copy), and a[idx] = vals (idx and vals of equal length), entry by entry *)
+Fixpoint gather (l : list Q) (idx : list Z) : out (list Q) :=
+  match idx with
+  | [] => OK []
+  | z :: t => match norm_idx z (length l) with
+              | Some k => match nth_error l k with Some x => r <~ gather l t ;; OK (x :: r) | None => UNM end
+              | None => EXN IndexError
+              end
+  end.
+Fixpoint scatter (l : list Q) (idx : list Z) (vals : list Q) : out (list Q) :=
+  match idx, vals with
+  | [], [] => OK l
+  | z :: t, v :: u => match norm_idx z (length l) with Some k => scatter (set_nth l k v) t u | None => EXN IndexError end
+  | _, _ => EXN ValueError                         (* shape mismatch *)
   end.
 
 (* ------------------------------------------------------------------ operators *)
@@ -197,6 +264,11 @@ Definition bin_op (op : binop) (a b : fv) : out fv :=
 Definition neg_op (a : fv) : out fv :=
   match a with VInt z => OK (VInt (- z)) | VFlt x => OK (VFlt (- x)) | _ => UNM end.
 
+Fixpoint all_ints (l : list fv) : option (list Z) :=
+  match l with [] => Some [] | VInt z :: t => option_map (cons z) (all_ints t) | _ => None end.
+Fixpoint all_flts (l : list fv) : option (list Q) :=
+  match l with [] => Some [] | VFlt q :: t => option_map (cons q) (all_flts t) | _ => None end.
+
 Definition cmp_op (op : cmpop) (a b : fv) : out fv :=
   match a with
   | VInt x => match b with
@@ -207,6 +279,13 @@ Definition cmp_op (op : cmpop) (a b : fv) : out fv :=
   | VArrQ l => match as_q b with Some s => OK (VArrB (map (fun x => qcmp op x s) l)) | None => UNM end
   | VArrM l => match as_q b with Some s => OK (VArrB (map (fun x => mcmp op x s) l)) | None => UNM end
   | VArrZ l => match b with VInt y => OK (VArrB (map (fun x => zcmp op x y) l)) | _ => UNM end
+  | VTup l => match b with
+              | VTup m => match all_ints l, all_ints m with
+                          | Some x, Some y =>
+                              let e := if Nat.eqb (length x) (length y) then forallb (fun p => Z.eqb (fst p) (snd p)) (combine x y) else false in
+                              match op with Eq => OK (VBool e) | Ne => OK (VBool (negb e)) | _ => UNM end
+                          | _, _ => UNM end
+              | _ => UNM end
   | VStr s => match b with
               | VStr t => match op with Eq => OK (VBool (String.eqb s t)) | Ne => OK (VBool (negb (String.eqb s t))) | _ => UNM end
               | _ => UNM end
@@ -216,6 +295,7 @@ Definition is_none (v : fv) : bool := match v with VNone => true | _ => false en
 
 Definition get_item (a i : fv) : out fv :=
   match i with
+  | VArrZ idx => match a with VArrQ l => r <~ gather l idx ;; OK (VArrQ r) | _ => UNM end
   | VInt z =>
       match a with
       | VArrQ l => match norm_idx z (length l) with Some n => of_opt (option_map VFlt (nth_error l n)) | None => EXN IndexError end
@@ -245,6 +325,12 @@ Definition set_item (a i v : fv) : out fv :=
       | VInt z => match as_q v with
                   | Some q => match norm_idx z (length l) with Some n => OK (VArrQ (set_nth l n q)) | None => EXN IndexError end
                   | None => UNM end
+      | VArrZ idx => match v with
+                     | VArrQ vals => r <~ scatter l idx vals ;; OK (VArrQ r)
+                     | VArrM vals => match all_some vals with          (* storing a nan is not modelled *)
+                                     | Some qs => r <~ scatter l idx qs ;; OK (VArrQ r)
+                                     | None => UNM end
+                     | _ => UNM end
       | VArrB m => match as_q v with
                    | Some q => if Nat.eqb (length m) (length l) then OK (VArrQ (vmap2 (fun x (c : bool) => if c then q else x) l m))
                                else match m with [] => OK (VArrQ l) | _ => EXN IndexError end   (* an empty mask selects nothing *)
@@ -264,11 +350,6 @@ Definition arr_len (v : fv) : option nat :=
   match v with
   | VArrQ l => Some (length l) | VArrM l => Some (length l) | VArrZ l => Some (length l) | VArrB l => Some (length l)
   | _ => None end.
-Fixpoint all_ints (l : list fv) : option (list Z) :=
-  match l with [] => Some [] | VInt z :: t => option_map (cons z) (all_ints t) | _ => None end.
-Fixpoint all_flts (l : list fv) : option (list Q) :=
-  match l with [] => Some [] | VFlt q :: t => option_map (cons q) (all_flts t) | _ => None end.
-
 Local Open Scope string_scope.
 Definition attr (a : fv) (f : string) : out fv :=
   match arr_len a with
@@ -285,6 +366,8 @@ Definition meth (a : fv) (m : string) (args : list fv) : out fv :=
         match a with
         | VArrQ l => OK (VArrQ l) | VArrZ l => OK (VArrQ (map inject_Z l)) | VArrB l => OK (VArrQ (map b2q l))
         | _ => UNM end
+      else if m =? "mean" then
+        match a with VArrQ [] => OK VNan | VArrQ l => OK (VFlt (qsum l / qlen l)) | _ => UNM end
       else if m =? "max" then
         match a with VArrQ l => match qmax_list l with Some x => OK (VFlt x) | None => EXN ValueError end | _ => UNM end
       else UNM
@@ -312,7 +395,11 @@ Definition np_sigs : list (string * sigv) :=
     ("np.allclose", [("a", None); ("b", None); ("rtol", Some (VFlt RTOL_DEFAULT)); ("atol", Some (VFlt ATOL_DEFAULT));
                      ("equal_nan", Some (VBool false))]);
     ("np.insert", [("arr", None); ("obj", None); ("values", None)]);
-    ("np.append", [("arr", None); ("values", None)]) ].
+    ("np.append", [("arr", None); ("values", None)]);
+    ("np.diff", [("a", None)]); ("np.round", [("a", None); ("decimals", Some (VInt 0))]);
+    ("np.flatnonzero", [("a", None)]); ("np.floor", [("x", None)]); ("int", [("x", None)]);
+    ("np.linspace", [("start", None); ("stop", None); ("num", Some (VInt 50))]);
+    ("np.all", [("a", None)]); ("np.logical_or", [("x1", None); ("x2", None)]); ("np.equal", [("x1", None); ("x2", None)]) ].
 
 Section Prims.
 Variable flog2 : Q -> Q.                                 (* np.log2 on positive floats *)
@@ -341,6 +428,37 @@ Definition npf (f : string) (args : list fv) : out fv :=
                    | Some zs => OK (VArrZ zs)
                    | None => match all_flts l with Some qs => OK (VArrQ qs) | None => UNM end
                    end
+    | [VArrQ l] => OK (VArrQ l)                         (* np.array(<array>): a copy *)
+    | _ => UNM end
+  else if f =? "np.diff" then
+    match args with [VArrQ l] => OK (VArrQ (diffs l)) | _ => UNM end
+  else if f =? "np.round" then
+    match args with
+    | [VArrQ l; VInt 10%Z] => OK (VArrQ (map round10 l))
+    | [VFlt q; VInt 10%Z] => OK (VFlt (round10 q))
+    | _ => UNM end
+  else if f =? "np.flatnonzero" then
+    match args with [VArrQ l] => OK (VArrZ (nz_from 0 l)) | _ => UNM end
+  else if f =? "np.floor" then
+    match args with [VFlt q] => OK (VFlt (inject_Z (Qfloor q))) | _ => UNM end
+  else if f =? "int" then                                   (* int(<finite float>): truncation *)
+    match args with [VFlt q] => OK (VInt (qtrunc q)) | [VInt z] => OK (VInt z) | _ => UNM end
+  else if f =? "np.linspace" then
+    match args with
+    | [a; b; VInt num] =>
+        match as_q a, as_q b with
+        | Some x, Some y => if (num <? 0)%Z then EXN ValueError else OK (VArrQ (linspace x y (Z.to_nat num)))
+        | _, _ => UNM end
+    | _ => UNM end
+  else if f =? "np.all" then
+    match args with [VArrB l] => OK (VBool (forallb (fun b => b) l)) | _ => UNM end
+  else if f =? "np.logical_or" then
+    match args with
+    | [VArrB a; VArrB b] => if Nat.eqb (length a) (length b) then OK (VArrB (vmap2 orb a b)) else UNM
+    | _ => UNM end
+  else if f =? "np.equal" then
+    match args with
+    | [VArrQ l; s] => match as_q s with Some q => OK (VArrB (map (fun x => qeqb x q) l)) | None => UNM end
     | _ => UNM end
   else if f =? "np.array_float" then
     match args with
@@ -375,6 +493,10 @@ Definition npf (f : string) (args : list fv) : out fv :=
     match args with
     | [VArrQ a; VArrQ b; VFlt rtol; VFlt atol; VBool false] =>
         if Nat.eqb (length a) (length b) then OK (VBool (allclose_gen rtol atol a b)) else UNM
+    | [VArrQ a; VFlt m; VFlt rtol; VFlt atol; VBool false] =>          (* an array against a scalar *)
+        OK (VBool (allclose_gen rtol atol a (repeat m (length a))))
+    | [VArrQ a; VNan; VFlt _; VFlt _; VBool false] =>                  (* nan is close to nothing *)
+        OK (VBool match a with [] => true | _ => false end)
     | _ => UNM end
   else if f =? "np.insert" then                          (* np.insert(arr, 0, value): a new array *)
     match args with
@@ -403,6 +525,27 @@ Definition interp1d_prim (args : list fv) (xnew : fv) : out fv :=
                  | _ => if nondecreasing x then OK (VArrQ (map (nearest_sample x yq fq) t)) else UNM
                  end
         | _, _, _ => UNM
+        end
+      else UNM
+  | [VArrQ x; VArrQ y; VStr kind; VInt (-1)%Z; VBool true; VNone; VStr fill; VBool false] =>
+      if (fill =? "nan") && ((kind =? "linear") || (kind =? "zero")) then
+        match xnew with
+        | VArrQ t =>
+            if negb (Nat.eqb (length x) (length y)) then EXN ValueError
+            else match qmin_list x, qmax_list x with
+                 | Some lo, Some hi =>
+                     let pts := sort_pts (combine x y) in
+                     if kind =? "zero" then
+                       if has_dup pts then EXN ValueError
+                       else if existsb (fun v => qltb v lo || qltb hi v) t then EXN ValueError
+                       else OK (VArrQ (map (interp_zero pts) t))
+                     else
+                       if existsb (fun v => qltb v lo || qltb hi v) t then EXN ValueError
+                       else if has_dup pts then OK VOpaque
+                       else OK (VArrQ (map (interp_lin pts) t))
+                 | _, _ => EXN ValueError                                          (* no sample point *)
+                 end
+        | _ => UNM
         end
       else UNM
   | _ => UNM
